@@ -918,6 +918,9 @@ class CallMixin:
         return self.call_contract(ctr, pos, kw, st, node)
       if getattr(ctr, 'is_classmethod', False):
         # obj.classmethod(...): cls is the class value of the receiver's class
+        if not self.feasible_full(st, z3.Not(z3.And(is_VRef(recv), is_type_obj(ref(recv))))):
+          # SomeClass.classmethod(...): the receiver is the class value itself
+          return self.call_contract(ctr, [recv] + pos, kw, st, node)
         c_ = st.heap.cls(ref(recv))
         tv = typeval(c_)
         return self.call_contract(ctr, [tv] + pos, kw,
